@@ -500,7 +500,7 @@ func (d Driver) Run(c *core.Ctx) error {
 							sigs[m.Signature] = true
 						}
 					}
-					b, _ := json.Marshal(map[string]any{"items": v.Items, "width": v.Width, "feat": v.Feat, "sigs": sigs, "sf": v.SF, "sfx": v.SFX})
+					b, _ := json.Marshal(map[string]any{"items": v.Items, "width": v.Width, "feat": v.Feat, "sigs": sigs, "sf": v.SF, "sfx": v.SFX, "allinf": v.AllInf, "sshr": v.SShr, "tstar": v.TStar})
 					dumpMu.Lock()
 					if fh, err := os.OpenFile(f, os.O_APPEND|os.O_CREATE|os.O_WRONLY, 0o644); err == nil {
 						fh.Write(append(b, '\n'))
@@ -521,8 +521,11 @@ func (d Driver) Run(c *core.Ctx) error {
 				if v.hasFeat("viadearer") {
 					c.AddExtra("corpus_optimum_via_dearer_class", 1)
 				}
-				if len(v.Ln) == 0 && len(v.Items) > 0 && !v.Complete && corpusKeys[key2(v)] {
+				if corpusKeys[key2(v)] {
 					c.AddExtra("corpus_scenarios", 1)
+					if v.AllInf && v.SShr && v.TStar[1] != 0 {
+						c.AddExtra("corpus_relaxation_clause", 1)
+					}
 				}
 				if len(v.Brk) >= 2 && (v.SF || (v.AllInf && v.SShr)) {
 					if _, dup := seen.LoadOrStore(key2(v), true); !dup {
